@@ -127,7 +127,7 @@ def run(ctx):
               [SC,
                # reviewed exception: rollback of a repository that `rad::init` itself just created and failed to finish
                r"^radicle::rad::init$"])
-    ctx.floor("who:Repository::remove", len(sites), 2, "callers of Repository::remove")
+    ctx.floor("who:Repository::remove", len(sites), 1, "callers of Repository::remove")
     sites = [(fn, bb, None) for fn, bb in db.call_sites(r"^std::fs::remove_dir_all$")
              if fn["key"].startswith("radicle::storage")]
     rules.who(ctx, "who:remove_dir_all", "fs::remove_dir_all in radicle::storage", sites, [REM])
